@@ -26,7 +26,7 @@ class C09(core.Check):
                   "The model is tied to the code by the correspondence run (same scripts on fake sockets handed to the real classes); thorough adds real loopback sockets.")
     level_note = ("Trusted: Lean kernel + standard axioms; translator harness/extract/tcp.py; the scripted fake socket as a stand-in for the kernel "
                   "(send returns how many bytes it took, recv returns bytes or raises); the kernel/TLS record layer between send() and the peer's recv() is not modelled.")
-    quick_n = 1500
+    quick_n = 3000
     thorough_n = 30000
     rule = ("case = (class, wirelog?, call history of tx/serviceSends/serviceReceives/service, send script, recv script); payloads 0..4 KiB (thorough: up to 1 MiB), "
             "acceptance patterns all/1-byte dribble/zero runs/half/mixed, would-block and faults at random call indices, EOF, short reads. "
@@ -62,7 +62,7 @@ class C09(core.Check):
             sizes = []
             for _ in range(ntx):
                 s = rng.choice([0, 1, 2, 5, 17, 64, 300, rng.randrange(0, 4096)])
-                if tier == "thorough" and rng.random() < 0.002:
+                if tier == "thorough" and rng.random() < 0.0004:
                     s = 1 << 20
                 sizes.append(s)
             total = sum(sizes)
